@@ -215,7 +215,7 @@ func File(t *rapid.T, o Opts) *ir.File {
 		m := g.message(name, i == nMsg-1)
 		f.Messages = append(f.Messages, m)
 	}
-	pHeavy := 4
+	pHeavy := 2
 	if o.OneofHeavy {
 		pHeavy = 1 // with OneofHeavy the embedded messages mostly bring oneofs of their own (C07, C15)
 	}
@@ -328,7 +328,21 @@ func (g *fileGen) embedHeavy(used map[string]bool) {
 				add(&ir.Field{Name: nm("Str"), Kind: "string"})
 			}
 			if !emptyEmb && rapid.Bool().Draw(t, "eh_int") {
-				add(&ir.Field{Name: nm("Num"), Kind: rapid.SampledFrom([]string{"int64", "uint32", "double", "bool"}).Draw(t, "eh_kind")})
+				add(&ir.Field{Name: nm("Num"), Kind: rapid.SampledFrom([]string{"int64", "uint32", "double", "bool", "bytes", "float", "sint32", "bytes"}).Draw(t, "eh_kind")})
+			}
+			if !emptyEmb && rapid.IntRange(0, 2).Draw(t, "eh_bin") == 0 {
+				add(&ir.Field{Name: nm("Bin"), Kind: "bytes"})
+			}
+			if !emptyEmb && len(leaves) > 0 && rapid.IntRange(0, 2).Draw(t, "eh_msgs") == 0 {
+				// a list or map of messages (the leaves include messages without fields)
+				ref := rapid.SampledFrom(leaves).Draw(t, "eh_refs")
+				if ref != host.Name && ref != name {
+					fl := &ir.Field{Name: nm("Msgs"), Kind: ir.KMessage, Type: ref, Card: rapid.SampledFrom([]string{ir.Repeated, ir.Map}).Draw(t, "eh_msgscard")}
+					if rapid.IntRange(0, 2).Draw(t, "eh_msgsnull") == 0 {
+						fl.Nullable = boolp(false)
+					}
+					add(fl)
+				}
 			}
 			if !emptyEmb && rapid.IntRange(0, 2).Draw(t, "eh_list") != 0 {
 				add(&ir.Field{Name: nm("List"), Kind: "string", Card: ir.Repeated})
@@ -363,6 +377,26 @@ func (g *fileGen) embedHeavy(used map[string]bool) {
 					if lower {
 						on = "choice_" + strings.ToLower(px)
 					}
+					// half of the time the name is the tail of one of the host's own oneof names (`ResourceKind` ->
+					// `Kind`, `my_name` -> `name`): names of different groups that contain each other
+					if own := g.msgOneofs[host.Name]; len(own) > 0 && rapid.Bool().Draw(t, "eh_oneoftail") {
+						base := rapid.SampledFrom(own).Draw(t, "eh_oneofbase")
+						tail := ""
+						if i := strings.LastIndex(base, "_"); i > 0 && i+1 < len(base) {
+							tail = base[i+1:]
+						} else {
+							for i := len(base) - 1; i > 0; i-- {
+								if base[i] >= 'A' && base[i] <= 'Z' {
+									tail = base[i:]
+									break
+								}
+							}
+						}
+						if len(tail) >= 2 && tail != base && names0(g, host.Name, tail) {
+							on = tail
+							g.flat[host.Name].goNames[GoName(tail)] = true
+						}
+					}
 					add(&ir.Field{Name: nm("OneA"), Kind: "string", Oneof: on})
 					add(&ir.Field{Name: nm("OneB"), Kind: "int64", Oneof: on})
 				}
@@ -391,6 +425,12 @@ func (g *fileGen) embedHeavy(used map[string]bool) {
 			f.Messages = append(f.Messages, w)
 		}
 	}
+}
+
+// names0 reports whether name is free as a Go identifier and attribute in the flattened name set of message m.
+func names0(g *fileGen, m, name string) bool {
+	ns := g.flat[m]
+	return ns != nil && ns.okField(name)
 }
 
 func upper(s string) string {
@@ -699,6 +739,14 @@ func (g *fileGen) field(m *ir.Message, names *nameSet, embedded map[string]bool,
 					break
 				}
 			}
+		}
+		if !reused && fl.Kind == ir.KMessage && rapid.IntRange(0, 7).Draw(t, "typename") == 0 && names.okField(fl.Type) {
+			// a field named after its type (the README's `Metadata Metadata = 2`): <Type>.<Child> is then both the
+			// Message.Field key of the child and the tail of its full path
+			fl.Name = fl.Type
+			names.addField(fl.Type)
+			g.pairs = append(g.pairs, [2]string{fl.Name, fl.Type})
+			reused = true
 		}
 		if !reused && fl.Kind == "bool" && fl.Card == ir.Single && !inOneof && fl.CastType == "" && fl.CustomType == "" && rapid.IntRange(0, 2).Draw(t, "activename") == 0 {
 			// "active" is the name of the placeholder attribute of an empty message (a computed bool): a real
